@@ -69,7 +69,7 @@ func c02MarkTable(e *Env, s *Sched) {
 		var depRoot ssa.Value
 		isDepStatus := func(v ssa.Value) bool {
 			p, ok := e.C.PathOf(v)
-			if !ok || !p.Suffix("State.Status") || SameValue(p.Root, nodeParam) {
+			if !ok || !p.Suffix("State.Status") || sameNode(p.Root, nodeParam) {
 				return false
 			}
 			depRoot = p.Root
